@@ -8,7 +8,8 @@
 // "REFUSED id rank=r msg=..." : the algorithm threw std::invalid_argument (its explicit refusal) for this case.
 // Output (line buffered): "BAD id rank=r kind=K idx=i got=.. exp=.." (first mismatch of a rank in a case),
 // "ERR id rank=r code=c" (MPI call returned an error code), "DONE rank" when a rank has finished all its cases.
-// scorefile: int32 cur[32] (case id a rank is inside, -1 between cases, -2 finished) + int32 enter[32] (barrier stamps),
+// scorefile: int32 cur[32] (case id a rank is inside, -1 between cases, -2 finished) + int32 enter[32] (barrier stamps)
+// + int32 last[32] (last case a rank started),
 // mmap'ed MAP_SHARED so that it survives a crash of the simulation.
 #include <mpi.h>
 #include <cstdio>
@@ -413,6 +414,7 @@ int main(int argc, char** argv)
       MPI_Comm_rank(comm[c.np], &rank);
       p2p_barrier(sync[c.np], rank, c.np);
       g_score[g_wrank] = id;
+      g_score[64 + g_wrank] = id;   // last case started (kept): the suspect when a run dies between two cases
       try {
         if (c.op == MAXLOC) {
           if (c.ty == TINT) run_case<TrPII>(cx, kind, nb, c, comm[c.np], rank, MPI_2INT);
